@@ -307,6 +307,36 @@ func c13Inputs(c *fw.Ctx, i int, s *srv.Server, bgName string) []c13Input {
 		transports := []string{"", "RTP/AVP/TCP;unicast;interleaved=0-1", "RTP/AVP/TCP;unicast;interleaved=", "RTP/AVP/TCP;unicast;interleaved=a-b", "RTP/AVP/TCP;unicast;interleaved=0", "RTP/AVP/TCP;unicast;interleaved=70000-70001",
 			"RTP/AVP/TCP;unicast;interleaved=-1--2", "RTP/AVP/UDP;unicast;client_port=0-0", "RTP/AVP/UDP;unicast;client_port=65535-65536", "RTP/AVP/UDP;unicast;client_port=", "RTP/AVP/UDP;unicast;client_port=x", "RTP/AVP;unicast;client_port=1-2;client_port=3",
 			"client_port=5000-5001", strings.Repeat("a;", 20000)}
+		// each Transport header cut at every offset (bare keys, dangling '=', half ranges)
+		var cutTransports []string
+		for _, full := range []string{"RTP/AVP/TCP;unicast;interleaved=0-1;mode=record", "RTP/AVP/UDP;unicast;client_port=5000-5001;server_port=6000-6001;mode=record", "RTP/AVP;unicast;client_port=5000-5001"} {
+			for n := 1; n <= len(full); n++ {
+				cutTransports = append(cutTransports, full[:n])
+			}
+		}
+		cutTransports = append(cutTransports, "interleaved", "client_port", "server_port", "interleaved;client_port;server_port", ";interleaved", "unicast;interleaved;")
+		for _, seq := range [][]string{{"SETUP"}, {"ANNOUNCE", "SETUP", "SETUP", "RECORD"}, {"DESCRIBE", "SETUP", "SETUP", "PLAY"}} {
+			for _, tr := range cutTransports {
+				var b []byte
+				for k, m := range seq {
+					uri := url(bgName)
+					if seq[0] == "ANNOUNCE" {
+						uri = url(name + "_ct")
+					}
+					var hs []string
+					var body []byte
+					switch m {
+					case "ANNOUNCE":
+						hs, body = []string{"Content-Type: application/sdp"}, goodSdp(r)
+					case "SETUP":
+						uri += "/streamid=" + fmt.Sprint((k+1)%2)
+						hs = []string{"Transport: " + tr}
+					}
+					b = append(b, rtspReq(m, uri, k+1, hs, body)...)
+				}
+				addTcp("rtsp/transport-cut/"+strings.Join(seq, ","), s.RtspAddr(), b)
+			}
+		}
 		for _, seq := range [][]string{{"SETUP"}, {"PLAY"}, {"RECORD"}, {"TEARDOWN"}, {"DESCRIBE", "DESCRIBE"}, {"ANNOUNCE", "ANNOUNCE"}, {"ANNOUNCE", "DESCRIBE"}, {"DESCRIBE", "ANNOUNCE", "SETUP", "PLAY", "RECORD"}, {"DESCRIBE", "PLAY"}, {"DESCRIBE", "SETUP", "SETUP", "PLAY", "PLAY"},
 			{"ANNOUNCE", "RECORD", "SETUP"}, {"ANNOUNCE", "SETUP", "PLAY"}, {"DESCRIBE", "SETUP", "RECORD"}, {"DESCRIBE", "TEARDOWN", "PLAY"}} {
 			for _, tr := range transports {
@@ -715,7 +745,7 @@ func init() {
 			return 64
 		},
 		CaseTimeout: func(string) time.Duration { return 10 * time.Minute },
-		Rule: "sub-inputs per surface against the whole in-process server: RTSP command connection (ANNOUNCE with ≈250 mutated SDP bodies — clock rates 0/1/999/2^31, removed/duplicated lines, truncations, broken sprop/config/fmtp —, interleaved `$` frames with hostile RTP/RTCP bodies on every channel before/after SETUP/RECORD and from players, method sequences out of order with 14 Transport header variants, request lines × URIs × header oddities, raw bytes), UDP datagrams (RTP with padding/CSRC/extension/STAP/FU/AU-header extremes, truncated at every offset, RTCP SR truncated at every offset) to the RTP/RTCP ports of live UDP pub and sub sessions, GB28181 PS bodies (valid PS truncated/bit-mutated, every start code with short tails) over UDP and TCP framing, HTTP requests to the FLV/TS/HLS listener (path × Upgrade × version oddities) and every HTTP-API endpoint with malformed/typed-wrong JSON, WebSocket-RTSP / WebSocket-FLV frames (64-bit lengths, masks, opcodes, truncated handshakes), and scripted upstream replies while lal is RTMP pull / RTSP pull / HTTP-FLV pull client. " +
+		Rule: "sub-inputs per surface against the whole in-process server: RTSP command connection (ANNOUNCE with ≈250 mutated SDP bodies — clock rates 0/1/999/2^31, removed/duplicated lines, truncations, broken sprop/config/fmtp —, interleaved `$` frames with hostile RTP/RTCP bodies on every channel before/after SETUP/RECORD and from players, method sequences out of order with 14 Transport header variants, three Transport headers cut at every offset, request lines × URIs × header oddities, raw bytes), UDP datagrams (RTP with padding/CSRC/extension/STAP/FU/AU-header extremes, truncated at every offset, RTCP SR truncated at every offset) to the RTP/RTCP ports of live UDP pub and sub sessions, GB28181 PS bodies (valid PS truncated/bit-mutated, every start code with short tails) over UDP and TCP framing, HTTP requests to the FLV/TS/HLS listener (path × Upgrade × version oddities) and every HTTP-API endpoint with malformed/typed-wrong JSON, WebSocket-RTSP / WebSocket-FLV frames (64-bit lengths, masks, opcodes, truncated handshakes), and scripted upstream replies while lal is RTMP pull / RTSP pull / HTTP-FLV pull client. " +
 			"monitors: process liveness (crash signature + resumption after the crashing input) and a canary (RTMP publish+play and an RTSP DESCRIBE of a background stream) after every group. cell = surface/input class.",
 		Assumptions: []string{"an error reply, a closed session or a kept-open session are all fine; only process death / failing canary is judged"},
 		MinCells: 12,
